@@ -60,12 +60,38 @@ package transport
 // stream validated, and the directory was finalized.
 // (rsm.gLastAddOK / rsm.gStreamValid are set by the validator's AddChunk / Validate)
 //@ ghost var gRecvFinalized bool
-//@ func (c *Chunk) save [C15]
-//@ trusted writes the chunk's bytes into the temporary directory
+// C16 (received snapshots): the bytes of a received snapshot file are fsynced when its last chunk
+// has been written -- the last chunk of a file, and in any case the last chunk of the snapshot
+// (a streamed snapshot announces no file chunk count, its tail chunk is only "the last chunk") --
+// and the snapshot is finalized (flag file, rename) only with nothing left unsynced.
+// gChunkDirty: bytes were written to the chunk file since its last fsync.
+//@ ghost var gChunkDirty bool
+//@ extern github.com/lni/vfs (f File) Write
+//@ ghostset gChunkDirty := true
+//@ extern github.com/lni/vfs (f File) Sync
+//@ ghostset gChunkDirty := old(gChunkDirty) && result != nil
+//@ extern github.com/lni/vfs (f File) Close
+//@ extern github.com/lni/vfs (fs FS) Create
+//@ ensures result1 == nil ==> result0 != nil
+//@ extern github.com/lni/vfs (fs FS) OpenForAppend
+//@ ensures result1 == nil ==> result0 != nil
+//@ extern github.com/lni/vfs (fs FS) PathDir
+//@ extern github.com/lni/vfs (fs FS) PathBase
+//@ extern github.com/lni/vfs (fs FS) PathJoin
+//@ func (c *Chunk) getEnv [C15 C16]
+//@ trusted builds the snapshot environment (paths only)
+//@ func (c *Chunk) save [C15 C16]
+//@ noframe
+//@ nobounds
 //@ requires c.validate && !chunk.HasFileInfo && chunk.ChunkId != 0 ==> rsm.gLastAddOK
-//@ func (c *Chunk) finalize [C15]
+//@ requires chunk.ChunkId < MaxUint64
+//@ modifies gChunkDirty
+//@ ensures err == nil && (chunk.ChunkCount == pb.LastChunkCount || chunk.ChunkCount == chunk.ChunkId + 1) ==> !gChunkDirty
+//@ ensures err == nil && chunk.FileChunkId < MaxUint64 && chunk.FileChunkId + 1 == chunk.FileChunkCount ==> !gChunkDirty
+//@ func (c *Chunk) finalize [C15 C16]
 //@ trusted flag file + rename of the temporary directory to its final name
 //@ requires c.validate ==> rsm.gStreamValid
+//@ requires !gChunkDirty
 //@ ghostset gRecvFinalized := result == nil
 //@ func fieldfunc.Chunk.onReceive [C15]
 //@ requires gRecvFinalized
@@ -81,11 +107,11 @@ package transport
 //@ ensures !(key in c.tracked) && held(c.mu) == 0
 //@ ensures forall k string :: k != key ==> (k in c.tracked) == old(k in c.tracked) && c.tracked[k] == old(c.tracked[k])
 
-//@ func (c *Chunk) addLocked [C15 C14]
+//@ func (c *Chunk) addLocked [C15 C14 C16]
 //@ noframe
 //@ nobounds
 //@ requires c.tracked != nil && chunk.ChunkId < MaxUint64 && !gRecvFinalized && !rsm.gStreamValid && held(c.mu) == 0
-//@ modifies rsm.gLastAddOK, rsm.gAddCalls, rsm.gStreamValid, gRecvFinalized, held(c.mu), entries(c.tracked), allof(tracked.next), allof(tracked.tick), allof(tracked.files)
+//@ modifies rsm.gLastAddOK, rsm.gAddCalls, rsm.gStreamValid, gRecvFinalized, gChunkDirty, held(c.mu), entries(c.tracked), allof(tracked.next), allof(tracked.tick), allof(tracked.files)
 // From the property: a stream with a corrupt chunk never finalizes. A chunk the validator rejects
 // ends its stream: the stream is no longer tracked, so the remaining chunks are ignored.
 //@ ensures chunk.ChunkId != 0 && rsm.gAddCalls > old(rsm.gAddCalls) && !rsm.gLastAddOK ==> !result && !(uf("chunkKeyOf", chunk.ShardID, chunk.ReplicaID, chunk.Index) in c.tracked)
